@@ -2,6 +2,7 @@ import Driver.NameMatch
 import Driver.Trace
 import Driver.Misc
 import Driver.Json
+import Driver.Promela
 open Driver
 
 partial def loop (h : IO.FS.Stream) (out : IO.FS.Stream) (f : String → String) : IO Unit := do
@@ -16,7 +17,8 @@ def commands : List (String × (String → String)) := [
   ("trace", trace),
   ("legal", legal),
   ("nest", nest),
-  ("json", json)
+  ("json", json),
+  ("promela", promela)
 ]
 
 def main (args : List String) : IO UInt32 := do
